@@ -3,7 +3,7 @@ import re
 from . import secretlib, textgen
 from .textcommon import TEXT_MODEL_DEPS as MODEL_DEPS, TEXT_TRUSTED as TRUSTED_BASE, TEXT_ASSUMPTIONS as ASSUMPTIONS  # noqa
 
-COQ_DEPS = ["lib/Str.v", "lib/Rx.v", "lib/RxFacts.v", "lib/RxSub.v", "gen/G_rx.v", "gen/G_text_consts.v", "model/TextModel.v", "model/JunModel.v", "model/JunProofs.v", "model/TextProofs.v", "model/TextProofs2.v", "model/Findings.v"]
+COQ_DEPS = ["lib/Str.v", "lib/Rx.v", "lib/RxFacts.v", "lib/RxSub.v", "gen/G_rx.v", "gen/G_text_consts.v", "model/TextModel.v", "model/JunModel.v", "model/JunProofs.v", "model/TextProofs.v", "model/TextProofs2.v", "model/Findings.v", "model/EncProofs.v"]
 RULE = ("every single-secret template of the corpus x every format class (type 7 with all salts 0-15, md5-crypt salt lengths 1-8, all 65 $9$ salt characters, sha512, numeric, hex, text) x enclosing-text combinations x indentation; "
         "replacement read back from the output by position and decoded with independent decoders; non-trivial = a distinct (template, class, variant, enclosing) combination")
 
